@@ -113,6 +113,55 @@ DFS_QUICK = ["0:s,f,x,s,x", "1:s,x", "1:s,s,x", "2:s,s,x", "1:s,w,x", "1:s,x,s,w
 DFS_THOROUGH = DFS_QUICK + ["3:s,s,s,x", "2:s,s,w,x,s,x", "1:s,s,c,w,x", "2:s,x,x,s,s,w,x", "1:s,f,g,x", "3:s,c,x,f,w,x", "2:s,s,s,c,s,w,x"]
 
 
+# ------------------------------------------------------------------ fault injection: the system refuses a worker thread
+
+# `S` = a start() during which std::thread's constructor throws (std::system_error); the owner catches it and carries on.  These
+# executions are outside the transition system (no such step there): they are judged by `fault_monitor` alone.
+FAULT_SCRIPTS = ["1:S,x", "2:s,S,x", "1:S,s,w,x", "2:s,S,s,w,x", "2:S,S,x", "1:s,w,S,x", "3:s,s,S,x,s,w,x", "2:S,x,s,w,x"]
+
+
+def fault_monitor(run):
+    """C07/C08 after a failed thread creation: stop() still returns and leaves an empty pool, every submitted task is destroyed
+    exactly once (none twice, none while it runs), none runs twice or after the final stop()"""
+    msgs = []
+    if run.status != "ok":
+        msgs.append("execution ended with `%s`%s" % (run.status, (": " + lib.err_summary(run.stderr)) if run.stderr else ""))
+    ev = parse(run)
+    submitted, destroyed, began, running = [], [], [], set()
+    last_stop = None
+    for i, t in enumerate(ev):
+        if t[0] == "submit":
+            submitted.append(t[1])
+        elif t[0] == "runBegin":
+            if t[1] in began:
+                msgs.append("task %s run twice" % t[1])
+            if t[1] in destroyed:
+                msgs.append("task %s run after it was destroyed" % t[1])
+            began.append(t[1])
+            running.add(t[1])
+        elif t[0] == "runEnd":
+            running.discard(t[1])
+        elif t[0] == "destroy":
+            if t[1] in destroyed:
+                msgs.append("task %s destroyed twice" % t[1])
+            if t[1] in running:
+                msgs.append("task %s destroyed while it runs" % t[1])
+            destroyed.append(t[1])
+        elif t[0] == "stopReturned":
+            last_stop = i
+            if running:
+                msgs.append("stop() returned while task(s) %s still run" % sorted(running))
+        elif t[0] == "threadCount" and i >= 2 and ev[i - 2][0] == "stopReturned" and t[1] != "0":
+            msgs.append("getThreadCount() = %s after stop() returned" % t[1])
+    if run.status == "ok":
+        left = [x for x in submitted if x not in destroyed]
+        if left:
+            msgs.append("task(s) %s never destroyed although the script ended with stop()" % left)
+        if last_stop is not None and any(t[0] in ("runBegin",) for t in ev[last_stop:]):
+            msgs.append("a task started after the final stop() had returned")
+    return msgs
+
+
 def batch(binary, lines, **kw):
     """schedtie.run_batch, plus a work-around: when the harness process exits right after a run's `end deadlock`
     line, run_batch marks the *next* (never started) run as `abort`; such phantom runs are executed again."""
@@ -578,6 +627,24 @@ def run_tie(prop, spec, tier, seed):
                                                     "events": small.events, "status": small.status, "stderr": small.stderr[-1500:],
                                                     "monitor": sm}))
     res.extra["monitor_violations"] = nviol
+    # fault injection: a worker thread that the system refuses to create
+    nf = 12 if tier == "quick" else 150
+    flines = ["run %s seed %d pts" % (cfg, rng.next() % (1 << 40)) for cfg in FAULT_SCRIPTS for _ in range(nf)]
+    fruns = [r for r in batch(binary, flines, max_restarts=30) if r.status is not None]
+    res.evaluations += len(fruns)
+    res.traces += len(fruns)
+    res.dist["fault_injection_executions"] = len(fruns)
+    nfv = 0
+    for r in fruns:
+        fm = fault_monitor(r)
+        if fm:
+            nfv += 1
+            if nfv <= 2:
+                res.failures.append(Failure("violation", "tulz::ThreadPool, script %s with a refused thread creation (S): %s" % (cfg_of(r), "; ".join(fm[:3])),
+                                            signature="%s|%s" % (cfg_of(r), " ".join(map(str, r.choices()))),
+                                            replay={"component": "pool", "cfg": cfg_of(r), "schedule": r.choices(), "events": r.events,
+                                                    "status": r.status, "stderr": r.stderr[-1500:], "monitor": fm}))
+    res.extra["monitor_violations"] += nfv
     # lock-step replay on the model
     mm = model_check(executed)
     nmm = 0
@@ -630,8 +697,11 @@ def replay(prop, spec, path):
     print("end", r.status)
     if r.stderr:
         print(r.stderr[-1500:])
-    msgs = monitor(prop, rp["cfg"], r)
-    bad = model_check([r])[0]
+    if "S" in parse_cfg(rp["cfg"])[1]:
+        msgs, bad = fault_monitor(r), None          # fault-injection scripts are judged by their own monitor
+    else:
+        msgs = monitor(prop, rp["cfg"], r)
+        bad = model_check([r])[0]
     if bad:
         print("model replay:", bad)
     for m in msgs:
